@@ -912,8 +912,22 @@ def gen_dns_cert():
         at += len(t)
     shape = all(p >= 0 for p in pos) and g.count(".send(") == 1 and g.count("new_socket(") == 1 and g.count("add_mapping(") == 1 \
         and "SocketType::Datagram" in g
+    # error handling: the responder task logs what respond_to_query returns (no unwrap of it, no
+    # unwrap inside before the reply is built); the resolver returns errors after recv_msg
+    srv_flat = re.sub(r"\s+", "", srv)
+    before_reply = body.split("create_response(")[0]
+    server_reports = ("ifletErr(e)=DnsServer::respond_to_query(table,socket).await{" in srv_flat
+                      and "respond_to_query(table,socket).await.unwrap()" not in srv_flat
+                      and ".unwrap()" not in before_reply and ".expect(" not in before_reply)
+    gflat = re.sub(r"\s+", "", g)
+    after_recv = gflat.split(".recv_msg()", 1)[1] if ".recv_msg()" in gflat else ".unwrap()"
+    client_reports = ".unwrap()" not in after_recv and ".expect(" not in after_recv and "rdata.len()<4" in after_recv
     lines = ["-- GENERATED from /repo sources by tools/extract.py on every check; do not edit",
              "namespace Elvis.Gen",
+             "/-- the responder task logs the error `respond_to_query` returns; nothing is unwrapped before the reply is built -/",
+             f"def dnsServerReportsErrors : Bool := {'true' if server_reports else 'false'}",
+             "/-- `get_host_by_name` unwraps nothing after `recv_msg` and checks `rdata.len() < 4` -/",
+             f"def dnsClientReportsErrors : Bool := {'true' if client_reports else 'false'}",
              "/-- `respond_to_query` reads its request with `recv_msg()` (the whole datagram) -/",
              f"def dnsServerReadsWholeDatagram : Bool := {'true' if whole else 'false'}",
              "/-- byte budget of `recv(n)` when it does not (0 = reads the whole datagram) -/",
